@@ -120,7 +120,7 @@ func c08Parse(p *chk.Prog, r *chk.Report) {
 		y.Check("addressPoolFromCR:group-is-parse-result", rs.Pos(), len(store) == 1 && g.Dominated(store[0], okParse), "", "an address group is stored that is not the successful ParseCIDR of the entry written by the user")
 		y.Check("addressPoolFromCR:cidr-list-gets-all-networks", rs.Pos(), len(app) == 1 && g.Dominated(app[0], okParse), "", "the pool's CIDR list does not receive every network of the parsed entry (addresses lost or added)")
 		if len(store) == 1 && len(app) == 1 {
-			skip := loopSkipsWithout(g, rs, func(n ast.Node) bool { return n == store[0].Top }, nil) || loopSkipsWithout(g, rs, func(n ast.Node) bool { return n == app[0].Top }, nil)
+			skip := loopSkipsWithout(g, rs, func(n ast.Node) bool { return n == store[0].Top }, chk.NoGuard) || loopSkipsWithout(g, rs, func(n ast.Node) bool { return n == app[0].Top }, chk.NoGuard)
 			y.Check("addressPoolFromCR:every-entry", rs.Pos(), !skip && !loopHasBreak(g, rs), "", "an entry of spec.addresses can be skipped")
 		}
 		okEmpty := false
@@ -208,7 +208,7 @@ func c08Accumulator(p *chk.Prog, r *chk.Report) {
 		}
 	}
 	x.Check("poolsFor:append:contains-no-node-ip", app.Pos(), okNode, "", "a CIDR can be accepted although it contains a node's internal IP of its family ("+why2+")")
-	x.Check("poolsFor:every-cidr", cidrLoop.Pos(), !loopHasBreak(g, cidrLoop) && !loopSkipsWithout(g, cidrLoop, func(n ast.Node) bool { return n == app.Top }, nil), "", "a CIDR of a pool can escape the checks (skipped or the loop left early)")
+	x.Check("poolsFor:every-cidr", cidrLoop.Pos(), !loopHasBreak(g, cidrLoop) && !loopSkipsWithout(g, cidrLoop, func(n ast.Node) bool { return n == app.Top }, chk.NoGuard), "", "a CIDR of a pool can escape the checks (skipped or the loop left early)")
 	// pool store
 	stores := g.Find(f.IsAssignPat("M[P.Name]", "POOL", chk.H("P", cr), chk.H("POOL", pool)))
 	x.Check("poolsFor:pool-store", poolLoop.Pos(), len(stores) == 1, "", "expected one pools[p.Name] = pool")
@@ -217,7 +217,7 @@ func c08Accumulator(p *chk.Prog, r *chk.Report) {
 		x.Check("poolsFor:store:no-duplicate-name", s.Pos(), g.Dominated(s, g.GPat(false, "M[P.Name] != nil", chk.H("M", func(e ast.Expr) bool { return f.SameExpr(e, m) }), chk.H("P", cr))), "", "a second pool with the same name silently replaces the first")
 		x.Check("poolsFor:store:after-cidr-checks", s.Pos(), g.AfterLoop(s, cidrLoop), "", "a pool is stored before all its CIDRs were checked")
 	}
-	x.Check("poolsFor:every-pool", poolLoop.Pos(), !loopHasBreak(g, poolLoop) && len(stores) == 1 && !loopSkipsWithout(g, poolLoop, func(n ast.Node) bool { return n == stores[0].Top }, nil), "", "a pool can be skipped")
+	x.Check("poolsFor:every-pool", poolLoop.Pos(), !loopHasBreak(g, poolLoop) && len(stores) == 1 && !loopSkipsWithout(g, poolLoop, func(n ast.Node) bool { return n == stores[0].Top }, chk.NoGuard), "", "a pool can be skipped")
 	co := need(x, p, cfgPkg, "", "cidrsOverlap")
 	if co != nil {
 		ok := false
